@@ -106,7 +106,11 @@ EXPLANATION = (
     "meets a frame holding ARRAY_SIZE(item) items: a marker on an exactly full frame neither stores nor aborts, one item too "
     "many gives a negative value, items scheduled before are kept (R11); the one-shot layer layer1/sched_gsmtime.c, evaluated "
     "with the linuxlist.h primitives over every sequence of two and three registrations, hands every event to "
-    "tdma_schedule_set exactly once, with its own set and p3, for the frame it gets when registered alone (R12).")
+    "tdma_schedule_set exactly once, with its own set and p3, for the frame it gets when registered alone, also when an overdue "
+    "event (registered after its hand-over point) is pending ahead of the in-time ones (R12); tdma_schedule is evaluated for "
+    "every number of items already in its frame (counted up to exactly ARRAY_SIZE(item), then refused) and every store of the "
+    "witness folds is performed in the declared type of the member it hits, bit-field widths included (R11); the declared "
+    "types of num_items and cur_bucket can represent 0..ARRAY_SIZE(item) and 0..ARRAY_SIZE(bucket)-1 (R13).")
 ASSUMPTIONS = [
     "type-based aliasing: stores through int*/non-scheduler lvalues do not modify scheduler fields; "
     "distinct field names of the scheduler structs do not overlap",
@@ -136,8 +140,11 @@ ASSUMPTIONS = [
     "(R12 gives no verdict when the container struct has several members of that type); LLIST_POISON values are never "
     "dereferenced by correct code (a dereference is no verdict)",
     "sched_gsmtime_execute(fn) is called once per TDMA frame with consecutive frame numbers, before the ring advances "
-    "(tail of l1_sync), so a set handed to tdma_schedule_set(offset) in frame fn starts in frame fn + offset; events are "
-    "registered at least the scheduling lead ahead and frame numbers do not wrap inside a witness history",
+    "(tail of l1_sync), so a set handed to tdma_schedule_set(offset) in frame fn starts in frame fn + offset; the events "
+    "whose hand-over is judged are registered at least the scheduling lead ahead (what becomes of an overdue event is not "
+    "judged) and frame numbers do not wrap inside a witness history",
+    "bit-fields: a bit-field of an unsigned type is unsigned; a value a signed bit-field can only hold under one of the two "
+    "signedness conventions (gcc default / AAPCS) is no verdict",
 ]
 
 FW = "src/target/firmware"
@@ -751,6 +758,8 @@ class Fn:
             return
         if k in ("DoHead", "BreakStmt", "ContinueStmt", "GotoStmt", "NullStmt"):
             return
+        if k is None and not kids(a):
+            return                        # the placeholder clang emits for an omitted for-init (`for (; c; i)`): no effect
         if k in ("GCCAsmStmt", "MSAsmStmt"):
             raise AnalysisError("%s(): inline assembly is outside the analysable vocabulary" % self.name)
         self.rval(a)
@@ -2866,6 +2875,26 @@ def int_type(tu, tdict):
     return None
 
 
+def field_decl(tu, rec, name):
+    r = tu.records.get(rec)
+    for c in kids(r) if r is not None else ():
+        if kind(c) == "FieldDecl" and c.get("name") == name:
+            return c
+    return None
+
+
+def field_int_type(tu, fd):
+    """int_type of a struct member as an OBJECT: a bit-field `T m:w` is a w-bit integer of T's signedness
+    (spelled "T:w"), whatever T's own width is.  None: not an integer member."""
+    t = int_type(tu, fd.get("type"))
+    if t is None or not fd.get("isBitfield"):
+        return t
+    w = tu.fold(kids(fd)[0]) if kids(fd) else None
+    if not isinstance(w, int) or not 0 < w <= t[1]:
+        raise AnalysisError("bit-field %s: width does not fold to 1..%d -- unclassifiable" % (fd.get("name"), t[1]))
+    return ("%s:%d" % (t[0], w), w, t[2])
+
+
 def conv(v, t):
     """C integer conversion of the mathematical value v to type t (modular; out-of-range conversion to a signed
     type as implemented by gcc/clang)."""
@@ -2942,7 +2971,7 @@ class PrioFlow:
 
     def field_link(self, m):
         fd = self.tu.by_id.get(m.get("referencedMemberDecl"))
-        t = int_type(self.tu, fd.get("type"))
+        t = field_int_type(self.tu, fd)
         if t is None:
             return None
         f = fd.get("_file") or ""
@@ -3283,6 +3312,7 @@ class CEval:
         self.globals = {}
         self._types = {}
         self._fields = {}
+        self._bits = {}
         self.lazy_globals = False         # True: file-scope objects defined in the TU are created (with their initialiser) on first use
         self.externs = {}                 # name -> callable(args): models of functions without a body in the TU
 
@@ -3630,7 +3660,23 @@ class CEval:
             if type(old) is not type(v) or isinstance(v, list):
                 raise NoVerdict("aggregate store of unmatched shape")
             v = self.copy(v)
+        elif isinstance(obj, Rec) and obj.rec and isinstance(v, int):
+            bf = self.bitfield(obj.rec, key)
+            if bf is not None:
+                if bf[2] and not 0 <= v < 1 << (bf[1] - 1):
+                    # gcc: signed unless -funsigned-bitfields; the AAPCS says unsigned -- the two disagree on this value
+                    raise NoVerdict("store of %d into the signed bit-field %s.%s (%s)" % (v, obj.rec, key, bf[0]))
+                v = conv(v, bf)
         obj[key] = v
+
+    def bitfield(self, rec, name):
+        """(spelling, bits, signed) when struct rec's member `name` is an integer bit-field, else None.  clang inserts
+        no conversion node for the truncation a store into a bit-field performs: it is applied in put()."""
+        k = (rec, name)
+        if k not in self._bits:
+            fd = field_decl(self.tu, rec, name)
+            self._bits[k] = field_int_type(self.tu, fd) if fd is not None and fd.get("isBitfield") else None
+        return self._bits[k]
 
     def lv(self, n, fr):
         k = kind(n)
@@ -4987,9 +5033,9 @@ class SchedWorld:
                 it["cb"] = ("fn", "<item #%d already in bucket %d>" % (k, b))
                 it["p1"], it["p2"], it["p3"], it["prio"] = k, b, 7, k
                 self.pre[it["cb"]] = (b, dict(it))
-            B["num_items"] = n
-        self.sched["cur_bucket"] = cur
-        self.cur = cur
+            ev.put((B, "num_items"), n)
+        ev.put((self.sched, "cur_bucket"), cur)
+        self.cur = self.sched["cur_bucket"]
 
     def call(self, name, args):
         self.ev.steps = 0
@@ -5054,6 +5100,34 @@ class SchedWorld:
         if [b for (b, _k) in at] != [want]:
             bad.append("the item is %s (wanted: once in bucket %d)" % (
                 "not stored" if not at else "stored in bucket(s) %s" % ", ".join(str(b) for (b, _k) in at), want))
+        d = self.damage()
+        if d:
+            bad.append(d)
+        return "; ".join(bad) or None
+
+    def run_single_at(self, off, k):
+        """tdma_schedule(off, ...) when its frame already holds k items: refused (negative value, nothing lost) iff
+        k is the capacity; else success, the item once in bucket (cur + off) mod ring, whose fill count becomes k + 1."""
+        a = self.a
+        cb = ("fn", "<call-back of the scheduled item>")
+        rc = self.call("tdma_schedule", [off, cb, 11, 12, 1313, 5])
+        if self.oob(rc):
+            return self.oob(rc)
+        want = (self.cur + off) % a.NFR
+        bad = []
+        at = self.where(cb)
+        if k >= a.NCB:
+            if not isinstance(rc, int) or rc >= 0:
+                bad.append("returns %s although it is the %dth item of its frame (wanted: a negative value)" % (rc, a.NCB + 1))
+        else:
+            if not isinstance(rc, int) or rc < 0:
+                bad.append("returns %s (wanted: a non-negative value, the frame has room)" % (rc,))
+            n = self.sched["bucket"][want]["num_items"]
+            if n != k + 1:
+                bad.append("bucket %d ends with num_items = %s (wanted: %d)" % (want, n, k + 1))
+            elif [b for (b, _k) in at] != [want]:
+                bad.append("the item is %s (wanted: once in bucket %d)" % (
+                    "not stored" if not at else "stored in bucket(s) %s" % ", ".join(str(b) for (b, _k) in at), want))
         d = self.damage()
         if d:
             bad.append(d)
@@ -5184,7 +5258,11 @@ def r11_set_capacity(a):
     on a full bucket), {item x (capacity-k)} (end of set on an exactly full frame), {item x (capacity-k+1)} (one item
     too many: must be refused, nothing scheduled before may be lost) and {item, END_FRAME, END_FRAME, item} whose empty
     middle frame is full.  Judged is the outcome only: return value's sign, where every item ends up, that the items
-    scheduled before are all still there."""
+    scheduled before are all still there.  tdma_schedule() is evaluated at the same points for every k = 0..capacity
+    items already in its frame: accepted and counted (num_items = k + 1, the count tdma_sched_execute() runs) below the
+    capacity, refused at the capacity.  Stores are performed in the DECLARED type of the member they hit (CEval.put:
+    bit-field width and signedness from the header's FieldDecl), so a counter too narrow for the value "exactly full"
+    shows as the wrapped count it produces (seed c08-20)."""
     R = "C08.R11"
     ring, cap = a.NFR, a.NCB
     if ring < 4:
@@ -5193,7 +5271,7 @@ def r11_set_capacity(a):
 
     def fold():
         W = SchedWorld(a)
-        bad = {"marker": None, "fit": None, "over": None}
+        bad = {"marker": None, "fit": None, "over": None, "single": None}
         runs = 0
 
         def one(cls, cur, off, pattern, fills):
@@ -5211,9 +5289,17 @@ def r11_set_capacity(a):
                 runs += one("fit", cur, off, "I" * (cap - k), {b0: k})
                 runs += one("over", cur, off, "I" * (cap - k + 1), {b0: k})
             runs += one("marker", cur, off, "IFFI", {(b0 + 1) % ring: cap})
+            for k in range(cap + 1):
+                W.reset(cur, {b0: k})
+                runs += 1
+                t = W.run_single_at(off, k)
+                if t and bad["single"] is None:
+                    bad["single"] = "tdma_schedule(frame_offset=%d, ...) at cur_bucket=%d while bucket %d already holds %d " \
+                                    "item(s): %s" % (off, cur, b0, k, t)
         return runs, bad
     runs, bad = fold_stage("tdma_schedule_set", fold)
-    a.L.floor(R, "concrete evaluations of tdma_schedule_set on exactly full / over-full frames", runs, len(points) * (3 * cap + 4))
+    a.L.floor(R, "concrete evaluations of tdma_schedule / tdma_schedule_set on exactly full / over-full frames", runs,
+              len(points) * (4 * cap + 5))
     f = a.tu.func("tdma_schedule_set")
     want = "accepted, every item stored in its frame, in all evaluated sets"
     a.ob(R, "tdma_schedule_set", "tdma_schedule_set(): an end-of-frame marker handled while the frame it leaves (or passes "
@@ -5224,6 +5310,48 @@ def r11_set_capacity(a):
     want = "a negative return value, every item scheduled before still in its bucket"
     a.ob(R, "tdma_schedule_set", "tdma_schedule_set(): a set with one item more than its frame has room for is refused with "
          "a negative value and loses none of the items scheduled before", want, bad["over"] or want, bad["over"] is None, f)
+    want = "accepted with the frame's fill count raised by one for 0..%d items already there, refused with %d" % (cap - 1, cap)
+    a.ob(R, "tdma_schedule", "tdma_schedule(): an item for a frame that already holds k items is accepted and counted "
+         "(num_items becomes k + 1, up to exactly %d) for every k below the capacity, and refused with a negative value, "
+         "losing nothing, when the frame is full" % cap, want, bad["single"] or want, bad["single"] is None,
+         a.tu.func("tdma_schedule"))
+
+
+# ---------------------------------------------------------------- R13 the counters' types hold their documented range
+
+def r13_counter_types(a):
+    """C08.R13 -- a direct necessary condition of "exceeding a frame's capacity is reported as an error instead of
+    overwriting other items" and of "executed ... exactly N frame advances later": the scheduler's two counters, as
+    OBJECTS of their declared type (integer type, bit-field width read from the clang AST of the header), can represent
+    every value the stated behaviour makes them take.  tdma_sched_bucket.num_items counts the items of a frame, 0 up
+    to and INCLUDING the capacity ARRAY_SIZE(item) -- a full frame is a legal state and it is the state the overflow
+    error is raised in; tdma_scheduler.cur_bucket runs over every ring position 0 .. ARRAY_SIZE(bucket) - 1.  A type
+    that cannot hold one of these values makes the store of that value wrap: the full frame looks empty (its items
+    never run, later ones overwrite them) / the ring position leaves the ring.  Judged is the value range of the
+    member's type, not how it is spelled."""
+    R = "C08.R13"
+    H = os.path.join(FW, "include/layer1/tdma_sched.h")
+    n = 0
+    for rec, name, top, what in (("tdma_sched_bucket", "num_items", a.NCB, "every fill count of a frame, 0 .. %d "
+                                  "(ARRAY_SIZE(item): a full frame)" % a.NCB),
+                                 ("tdma_scheduler", "cur_bucket", a.NFR - 1, "every ring position 0 .. %d "
+                                  "(ARRAY_SIZE(bucket) - 1)" % (a.NFR - 1))):
+        fd = field_decl(a.tu, rec, name)
+        t = field_int_type(a.tu, fd) if fd is not None else None
+        if t is None:
+            raise AnalysisError("struct %s: member %s is not an integer object -- unclassifiable" % (rec, name))
+        n += 1
+        bits, signed = t[1], t[2]
+        hi = (1 << (bits - 1)) - 1 if signed else (1 << bits) - 1
+        if signed and fd.get("isBitfield") and hi < top <= (1 << bits) - 1:
+            raise AnalysisError("struct %s: whether the signed bit-field %s (%s) holds %d depends on the compiler's "
+                                "bit-field signedness -- unclassifiable" % (rec, name, t[0], top))
+        f = fd.get("_file") or ""
+        where = H if f.endswith("tdma_sched.h") and os.path.isfile(os.path.join(a.L.repo, H)) else a.F
+        a.L.ob(R, where, "struct " + rec, "struct %s: the type of member %s can represent %s" % (rec, name, what),
+               "a range that includes 0 .. %d" % top, "%s: %d .. %d" % (tdesc(t), -hi - 1 if signed else 0, hi), hi >= top,
+               fd.get("_line"))
+    a.L.floor(R, "scheduler counters whose declared type was read from the AST", n, 2)
 
 
 # ---------------------------------------------------------------- R12 the GSM-time feeder keeps its list ordered
@@ -5293,7 +5421,12 @@ def r12_gsmtime_feeder(a):
     event must be handed over exactly once, with its own parameters, for the same frame.  This is what the pending
     list's order is for: sched_gsmtime_execute stops at the first later event, so an insertion that puts an earlier
     event behind a later one loses it.  Whether the list is kept by insert-before-first-greater, insert-after-predecessor
-    or without the early exit is irrelevant."""
+    or without the early exit is irrelevant.
+    Same clause, histories with an OVERDUE event (seed c08-21): sched_gsmtime() accepts a request whose hand-over point
+    has already passed (registered in frame t for GSM frame t + d, d below the lead measured on the events registered
+    alone); it sorts ahead of everything newer.  The in-time events pending behind it must still be handed over exactly
+    once, for their own frame (two latenesses x up to five registration frames -- between the in-time hand-overs and in
+    the very frame one of them is due -- x three orders of the in-time events).  What becomes of the overdue event itself is not stated by the property and is not judged."""
     R = "C08.R12"
     tu = gsmtime_tu(a)
     F = tu.rel
@@ -5319,7 +5452,7 @@ def r12_gsmtime_feeder(a):
         return ", ".join("fn %d%s" % (Fk, "" if t is None else " (registered in frame %d)" % t) for (t, Fk) in events)
 
     def fold():
-        target = {}
+        target, handed = {}, {}
         alone = None
         runs = 0
         for Fk in GSM_FRAMES:
@@ -5333,6 +5466,7 @@ def r12_gsmtime_feeder(a):
                                 c[3] == 500 for c in mine) else " (not with the event's own set / p3)")
                 continue
             target[Fk] = mine[0][0] + mine[0][1]
+            handed[Fk] = mine[0][0]
         if alone is not None:
             return runs, alone, None
         hist = []
@@ -5344,10 +5478,27 @@ def r12_gsmtime_feeder(a):
         hist.append([(0, hi), (0, lo), (lo - 1, mid)])
         hist.append([(0, lo), (lo - 1, hi), (mid - 1, hi)])
         bad = None
-        for events in hist:
+        late = None
+        nlate = 0
+        # an OVERDUE event: registered in frame t for GSM frame t + d, d below the hand-over lead, so its hand-over
+        # point has passed when the frame's sched_gsmtime_execute() runs.  What becomes of it is not stated (not judged)
+        overdue = []
+        lead = min(Fk - handed[Fk] for Fk in GSM_FRAMES)     # an event registered alone is handed over `lead` frames early
+        if not 0 <= lead < GSM_LEAD - 1 or any(Fk - handed[Fk] != lead for Fk in GSM_FRAMES):
+            raise NoVerdict("events registered alone are handed over %s frames before their frame" % sorted(
+                {Fk - handed[Fk] for Fk in GSM_FRAMES}))
+        for d in (lead - 2, lead - 1):
+            for t in sorted({lo - 4, handed[lo], lo - 1, handed[mid], mid - 1}):
+                for order in ((lo, mid, hi), (hi, mid, lo), (hi, hi, mid)):
+                    overdue.append([(0, Fk) for Fk in order] + [(t, t + d)])
+        for events in hist + overdue:
+            isl = events in overdue
             rcs, seen = run(events)
             runs += 1
+            nlate += isl
             for k, (t, Fk) in enumerate(events):
+                if isl and k == len(events) - 1:
+                    continue
                 mine = [c for c in seen if c[2] == k]
                 text = None
                 if not accepted(rcs.get(k)):
@@ -5360,15 +5511,20 @@ def r12_gsmtime_feeder(a):
                 elif not isinstance(mine[0][1], int) or mine[0][0] + mine[0][1] != target[Fk]:
                     text = "its set is scheduled in frame %s with offset %s (wanted: to start in frame %d as when registered alone)" % (
                         mine[0][0], mine[0][1], target[Fk])
-                if text and bad is None:
+                if text and isl and late is None:
+                    tl, Fl = events[-1]
+                    late = "events registered for %s, and in frame %d an event for fn %d (overdue: its hand-over point has " \
+                           "passed): event #%d (fn %d): %s" % (describe([(None, ff) for (_t, ff) in events[:-1]]), tl, Fl, k, Fk, text)
+                elif text and not isl and bad is None:
                     bad = "events registered in the order %s: event #%d (fn %d): %s" % (
                         describe([(None if tt == 0 else tt, ff) for (tt, ff) in events]), k, Fk, text)
-            if bad is None and any(c[2] is None for c in seen):
+            if bad is None and not isl and any(c[2] is None for c in seen):
                 bad = "events registered in the order %s: tdma_schedule_set() is called with a set that was not registered" % (
                     describe([(None if tt == 0 else tt, ff) for (tt, ff) in events]))
-        return runs, None, bad
+        return runs, None, (bad, late, nlate)
     try:
         runs, alone, bad = fold()
+        bad, late, nlate = bad or (None, None, 0)
     except NoVerdict as e:
         raise AnalysisError("sched_gsmtime.c: the one-shot layer cannot be evaluated on its witness histories (%s) -- "
                             "unclassifiable" % e)
@@ -5384,6 +5540,12 @@ def r12_gsmtime_feeder(a):
         a.L.ob(R, F, "sched_gsmtime", "sched_gsmtime() keeps the pending events in the order sched_gsmtime_execute() relies on: "
                "with two or three events pending, registered in any order, every event is handed to tdma_schedule_set() exactly "
                "once and for its own frame", want, bad or want, bad is None, tu.func("sched_gsmtime").get("_line"))
+        a.L.floor(R, "witness histories with an overdue event among the pending events", nlate, 18)
+        want = "every in-time event handed over exactly once, for the frame it gets when registered alone, in all evaluated histories"
+        a.L.ob(R, F, "sched_gsmtime_execute", "sched_gsmtime_execute() reaches every due event although an overdue event (one "
+               "registered after its hand-over point had passed) is pending ahead of it: the in-time events are handed to "
+               "tdma_schedule_set() exactly once and for their own frame", want, late or want, late is None,
+               tu.func("sched_gsmtime_execute").get("_line"))
 
 
 # ---------------------------------------------------------------- who-may-write scan
@@ -5523,6 +5685,7 @@ def run(L, tier):
     L.stage(r10_offset_domain, a)
     L.stage(r11_set_capacity, a)
     L.stage(r12_gsmtime_feeder, a)
+    L.stage(r13_counter_types, a)
     if a.folds:
         L.structural("C08.R2/R3: ring indices outside the normal form (cur_bucket + x) mod %d are that value for every "
                      "ring position and every offset (exhaustive fold of the finite domain)" % a.NFR, ring_proofs, a)
